@@ -86,6 +86,21 @@ def setconf_vector(args, keysok, ctx="idle"):
         if first != b"SETCONF Nickname=earlier\r\n":
             extra += first      # the earlier call's line is not its own any more: it counts as output of this call
         p.dataReceived(b"250 OK\r\n")
+    if ctx == "refused" and not err and tr.value() and not (fired and isinstance(fired[0], failure.Failure)):
+        # Tor refuses the change (5xx): the call fails with Tor's answer, and that is the end of it - whatever the
+        # connection writes afterwards on its own counts as output of this call
+        extra = tr.value()
+        tr.clear()
+        p.dataReceived(b"513 Unacceptable option value: injected\r\n")
+        n = 0
+        while tr.value() and n < 6:
+            n += 1
+            extra += tr.value()
+            tr.clear()
+            p.dataReceived(b"250 OK\r\n")
+        if not (fired and isinstance(fired[0], failure.Failure)):
+            extra += b"SETCONF ?the-refusal-did-not-reach-the-caller\r\n"
+        fired = []
     if fired and isinstance(fired[0], failure.Failure):
         err = True
     wrote = extra + tr.value()
